@@ -419,6 +419,7 @@ class Builder:
                 s.value is hook[0]:
             # the yield of a context manager being inlined by _with
             self._yield_hook = None
+            self._yield_frame = frame
             try:
                 hook[1]()
             finally:
@@ -749,7 +750,10 @@ class Builder:
 
             def block():
                 if item.optional_vars is not None:
-                    self._emit('with_enter', item, frame)
+                    we = self._emit('with_enter', item, frame)
+                    # what `as <vars>` receives, for value-flow rules
+                    we.extra['yield_value'] = y.value
+                    we.extra['yield_frame'] = self._yield_frame
                 if idx + 1 < len(s.items):
                     self._with(s, idx + 1, frame)
                 else:
